@@ -132,8 +132,58 @@ func sortKeys[K comparable](keys []K) {
 		// ascending address order: arbitrary, but fixed within a repetition, and the permuted
 		// repetitions iterate in a different order - which is all the C06 oracle needs. (A replay in
 		// another process may start from another base order; it still compares two different orders.)
-		sort.Slice(keys, func(i, j int) bool { return reflect.ValueOf(keys[i]).Pointer() < reflect.ValueOf(keys[j]).Pointer() })
+		// Better than raw addresses where possible: order pointers by the printed CONTENT they point
+		// to (addresses inside that text blanked), ties by address. That order is the same in every
+		// process for keys with distinct content, so a violation replays in a fresh process.
+		type pk struct {
+			text string
+			addr uintptr
+		}
+		ks := make([]pk, len(keys))
+		for i := range keys {
+			v := reflect.ValueOf(keys[i])
+			ks[i].addr = v.Pointer()
+			if v.Kind() == reflect.Ptr && !v.IsNil() && v.Elem().CanInterface() {
+				ks[i].text = blankAddresses(fmt.Sprintf("%+v", v.Elem().Interface()))
+			}
+		}
+		idx := make([]int, len(keys))
+		for i := range idx {
+			idx[i] = i
+		}
+		sort.Slice(idx, func(a, b int) bool {
+			x, y := ks[idx[a]], ks[idx[b]]
+			if x.text != y.text {
+				return x.text < y.text
+			}
+			return x.addr < y.addr
+		})
+		out := make([]K, len(keys))
+		for i, j := range idx {
+			out[i] = keys[j]
+		}
+		copy(keys, out)
 	default:
 		sort.Slice(keys, func(i, j int) bool { return fmt.Sprintf("%#v", keys[i]) < fmt.Sprintf("%#v", keys[j]) })
 	}
+}
+
+// blankAddresses replaces every 0x... run by a fixed token.
+func blankAddresses(s string) string {
+	b := make([]byte, 0, len(s))
+	for i := 0; i < len(s); i++ {
+		if s[i] == '0' && i+1 < len(s) && s[i+1] == 'x' {
+			j := i + 2
+			for j < len(s) && ((s[j] >= '0' && s[j] <= '9') || (s[j] >= 'a' && s[j] <= 'f')) {
+				j++
+			}
+			if j > i+2 {
+				b = append(b, "PTR"...)
+				i = j - 1
+				continue
+			}
+		}
+		b = append(b, s[i])
+	}
+	return string(b)
 }
